@@ -651,3 +651,29 @@ def r6(cx):
         p = Q.must_pass(wb, [wd], {tb}, goal_blocks={b for b, j, s in oks})
         if p or tb not in wb.reachable(wd):
             cx.violation(wfn, 'no-retest', 'after a wake-up the job is not tested again', loc=wb.loc(wtt))
+
+
+@RS.rule('C13.R7', 'K-TAINT', 'job numbers are sparse: the number of jobs is never used as a bound or value for job indices')
+def r7(cx):
+    F = cx.F
+    LEN = ['yash_env::job::JobList::len']
+    INDEXED = [Q.re.compile(r'^yash_env::job::JobList::(get|get_mut|remove|set_current_job|update_status)$'),
+               Q.re.compile(r'Index<usize> for yash_env::job::JobList>::index$'), Q.re.compile(r'for yash_env::job::JobList>::index$')]
+    users = F.callers_of(lambda names, t: Q.callee_is(t, LEN))
+    # index-taking job list operations are the sites the rule protects (never vacuous)
+    idx_sites = F.callers_of(lambda names, t: Q.callee_is(t, INDEXED))
+    cx.floor(len(idx_sites), 8, 'index-taking JobList call sites')
+    cx.site('JobList::len call sites: %d; index-taking JobList call sites: %d' % (len(users), len(idx_sites)))
+    for b, blk, t in users:
+        cx.fn(b.root)
+        cx.site('%s: jobs.len() at %s' % (b.root, b.loc(t)))
+        tainted = Q.forward_taint(b, {t['dest']['l']}, through_calls=[Q.re.compile(r'core::ops::arith::(Add|Sub)'), Q.re.compile(r'::(min|max|saturating_sub)$')])
+        for sb, j, s in b.stmts():
+            if s['k'] == 'assign' and s['rv']['k'] == 'agg' and 'core::ops::range::Range' in (s['rv'].get('adt') or ''):
+                if any(Q.operand_local(o) in tainted for o in s['rv']['ops'] if Q.operand_local(o) is not None):
+                    cx.violation(b.root, 'job-count-as-index-bound', 'a range bounded by the number of jobs is built: job indices keep their value '
+                                 'while other jobs are removed, so a live job whose number is >= the count is skipped (e.g. `wait` returning '
+                                 'while a child is still running)', loc=b.loc(s))
+        for sb, st in b.calls():
+            if Q.callee_is(st, INDEXED) and any(Q.operand_local(a) in tainted for a in st['a'][1:] if Q.operand_local(a) is not None):
+                cx.violation(b.root, 'job-count-as-index', 'the number of jobs is used as a job index', loc=b.loc(st))
